@@ -31,6 +31,8 @@ func genCase(t *rapid.T) Case {
 	so := gen.SchemaOpts{Filters: rapid.Bool().Draw(t, "withFilters"), Flat: true, MaxDim: rapid.SampledFrom([]int{3, 8, 70}).Draw(t, "maxDim"), Quantizer: true}
 	ho := gen.HistoryOpts{MaxSteps: 8, MaxBatch: 10, PoolSize: rapid.SampledFrom([]int{8, 24}).Draw(t, "pool"),
 		AllowRejected: rapid.IntRange(0, 4).Draw(t, "allowRejected") == 0, Reopen: true, Evict: true, FieldProb: rapid.SampledFrom([]int{40, 85, 100}).Draw(t, "fieldProb")}
+	// the same id more than once in one update batch (merged in order; the indices must see the net change)
+	ho.AllowDupUpdate = rapid.IntRange(0, 3).Draw(t, "dupUpdate") == 0
 	nq := 4
 	if vt.Thorough() {
 		ho.MaxSteps, ho.MaxBatch, nq = 16, 40, 6
